@@ -221,6 +221,20 @@ static void generic(vh::Rng & r, vh::Out & out)
     p.covariance = Eigen::Matrix6d::Identity();
     Eigen::Affine3d T1 = rndT(), T2 = rndT();
     auto safe = [&](const Eigen::Affine3d & T, const Pose3D & q) {return std::fabs((T.linear() * rzyx(q.orientation))(2, 0)) < 0.995;};   // away from gimbal lock after transformation
+    // attitudes at the edge of the quantified range: 1e-3 .. 4e-3 rad from gimbal lock, under the identity, a translation or a turn
+    // about the vertical (which keep the pitch): position and attitude as a rotation
+    if (r.coin(1, 4)) {
+      Pose3D q = p;
+      const double d = 1.0e-3 + 3.0e-3 * std::fabs(u());
+      q.orientation = Eigen::Vector3d(u() * 3.1, (r.coin() ? 1 : -1) * (M_PI / 2 - d), u() * 3.1);
+      Eigen::Affine3d Tz = Eigen::Affine3d::Identity();
+      const int kind = (int)r.range(0, 2);
+      if (kind >= 1) {Tz.translation() = Eigen::Vector3d(u() * 100, u() * 100, u() * 100);}
+      if (kind == 2) {Tz.linear() = Eigen::AngleAxisd(u() * M_PI, Eigen::Vector3d::UnitZ()).toRotationMatrix();}
+      Pose3D a = Tz * q;
+      res.push_back(units((a.position - (Tz * q.position)).norm() / 100));
+      res.push_back(units((rzyx(a.orientation) - Tz.linear() * rzyx(q.orientation)).cwiseAbs().maxCoeff()));
+    }
     if (safe(T1, p)) {
       Pose3D a = T1 * p;
       res.push_back(units((a.position - (T1 * p.position)).norm() / 100));
